@@ -28,7 +28,7 @@ class Prop(C02):
 
     def gen_cases(self, rng, tier):
         n = 700 if tier == 'quick' else 7000
-        cases = E.all_enumerated('c15') + (E.state_x_op(limits=3, pairs=True) if tier != 'quick' else [])
+        cases = E.all_enumerated('c15', tier) + (E.state_x_op(limits=2) + E.state_x_op(limits=3, pairs=True) if tier != 'quick' else [])
         for k in range(n):
             w = dict(ins=10, rem=4, drop=1, dropk=3, restale=2, nhv=1, reconnect=(1 if k % 2 else 0), deferral=0)
             cases.append(R.gen_history(rng, rng.randint(5, 40), limits=(k % 5 != 4), weights=w))
